@@ -8,7 +8,11 @@ vs the composed Lean model (`pipeline` op: C05's parser on the implementation's 
 field transforms → engine → Unknown fallback → totals), merchants / categories / tags / counts exactly,
 money figures to the cent.
 Oracle on the implementation alone: per-source locality (report(all) = Σ report(single source)),
-missing / supplemental sources are neutral, changing one source's setting moves only its share.
+missing / unreadable / supplemental sources are neutral, changing one source's setting moves only its share.
+Unreadable-file stream: ordinary and supplemental source files that exist but cannot be read the way a user
+meets it (Latin-1 / Windows-1252 / UTF-16 export, binary junk, a directory in the file's place, permission
+denied when not root, 0-byte and header-only files) and files that are readable but unusual (UTF-8 BOM):
+the run must complete and every other source's transactions and totals must be what they are without it.
 PARTIAL: argparse, YAML loading and printing are exercised but not modelled; legacy-CSV rule files are
 covered by the oracle only (their loop is proved under C01/C14).
 """
@@ -43,6 +47,43 @@ def fmt_amount(r, cents, eu):
     if neg:
         s = f'({s})' if r.random() < 0.3 else '-' + s
     return s
+
+
+# ---- files that exist but are not what the settings say --------------------------------------------------
+# A file entry of a budget is either a str (written as UTF-8 text) or a dict:
+#   {'hex': '..'} raw bytes, {'dir': True} a directory in the file's place, {'text': .., 'mode': 0} chmod after writing.
+UNREADABLE = ['latin1', 'cp1252', 'utf16', 'binary', 'dir', 'noperm']     # cannot be read as UTF-8 text at all
+HOLLOW = ['empty', 'header-only']                                         # readable, no data row
+FAULTS = UNREADABLE + HOLLOW
+
+
+def fault_entry(r, kind, text, header=True):
+    """the file a user ends up with instead of the UTF-8 CSV `text` (all random draws happen for every kind,
+    so the stream of budgets does not depend on the kind chosen)"""
+    lines = text.split('\n')
+    at = r.randint(0, max(len(lines) - 1, 0))
+    junk = bytes(r.getrandbits(8) for _ in range(r.choice([8, 64, 300])))
+    if kind == 'noperm' and os.geteuid() == 0:
+        kind = 'dir'                        # root reads through any mode: use the other OSError a user meets
+    if kind == 'latin1':                    # export saved by a spreadsheet as ISO-8859-1
+        return {'hex': '\n'.join(lines[:at] + ['Caf\u00e9 M\u00fcnchen,\u00a35'] + lines[at:]).encode('latin-1').hex()}
+    if kind == 'cp1252':                    # Windows "ANSI": euro sign and a curly apostrophe
+        return {'hex': '\n'.join(lines[:at] + ['\u20ac 5 Joe\u2019s'] + lines[at:]).encode('cp1252').hex()}
+    if kind == 'utf16':                     # Excel "Unicode text"
+        return {'hex': text.encode('utf-16').hex()}
+    if kind == 'binary':                    # the .xlsx / .pdf itself, renamed
+        return {'hex': (r.choice([b'PK\x03\x04\x14\x00', b'%PDF-1.7\n%\xe2\xe3\xcf\xd3\n', b'\x00\x01']) + junk + b'\xff\xfe\x80\n').hex()}
+    if kind == 'dir':
+        return {'dir': True}
+    if kind == 'noperm':
+        return {'text': text, 'mode': 0}
+    if kind == 'empty':
+        return ''
+    if kind == 'header-only':
+        return lines[0] + '\n' if header and lines and lines[0] else ''
+    if kind == 'bom':                       # readable: UTF-8 with signature, as written by Excel / Notepad
+        return '\ufeff' + text
+    return text
 
 
 def gen_source(r, i, year):
@@ -109,17 +150,47 @@ def gen_budget(r):
     n = r.choice([1, 2, 2, 3, 4])
     files, sources = {}, []
     expect = []
+    states = []
     for i in range(n):
         src, text, exp = gen_source(r, i, year)
         sources.append(src)
-        if r.random() < 0.9:
-            files[src['file']] = text
+        # the file: present (with or without a UTF-8 signature) / missing / there but unreadable or hollow
+        state = r.random()
+        fk = r.choice(FAULTS)
+        entry = fault_entry(r, fk, text, header=src.get('has_header', True))
+        # EXCLUSION (finding F11-bom, notes): a UTF-8 signature is only put on files that have a header line
+        bom = r.random() < 0.15 and src.get('has_header', True)
+        if state < 0.78:
+            files[src['file']] = fault_entry(r, 'bom', text) if bom else text
             expect.extend(exp)
+            states.append('bom' if bom else 'ok')
+        elif state < 0.88:
+            states.append('missing')
+        else:
+            files[src['file']] = entry
+            states.append(fk)
     supp = r.random() < 0.4
+    ORDERS = 'date,item,amount\n2025-01-05,Book,15.99\n2025-01-06,Pen,100.00\n2025-02-01,Ink,2.50\n'
+    supp_state = 'ok'
     if supp:
         sources.insert(r.randint(0, len(sources)), {'name': 'orders', 'file': 'data/orders.csv', 'format': '{date:%Y-%m-%d},{item},{amount}',
                                                     'columns': {'description': '{item}'}, 'supplemental': True})
-        files['data/orders.csv'] = 'date,item,amount\n2025-01-05,Book,15.99\n2025-01-06,Pen,100.00\n2025-02-01,Ink,2.50\n'
+        files['data/orders.csv'] = ORDERS
+        fk = r.choice(FAULTS + ['missing', 'bom'])
+        entry = fault_entry(r, fk, ORDERS)
+        if r.random() < 0.3:
+            supp_state = fk
+            if fk == 'missing':
+                del files['data/orders.csv']
+            else:
+                files['data/orders.csv'] = entry
+    states.append('supplemental:' + supp_state if supp else 'no-supplemental')
+    # pre-drawn extra source for the neutrality oracle: an ordinary source whose file contributes nothing, or a supplemental source
+    # that no rule queries (any content): adding it must not move a single figure
+    gsupp = r.random() < 0.5
+    gkind = r.choice(FAULTS + (['bom', 'valid'] if gsupp else []))
+    ghost = {'supplemental': gsupp, 'kind': gkind, 'pos': r.randint(0, len(sources)),
+             'entry': fault_entry(r, gkind, 'Date,What,Amount\n2025-01-09,GHOST CAFE,12.00\n2025-02-10,GHOST RENT,900.00\n')}
     txn = GR.gen_txn(r)
     txn['description'] = r.choice(DESCS)
     kind = r.choice(['rules', 'rules', 'rules', 'none', 'csv'])
@@ -131,7 +202,9 @@ def gen_budget(r):
             f['rules'].insert(0, {'name': 'Ordered', 'match': 'any(r.amount == amount for r in orders)', 'category': 'Orders',
                                   'tags': ['{next((r.item for r in orders if r.amount == amount), "")}']})
             f['transforms'] = []
-            probe = ('Ordered', sum(1 for e in expect if e['cents'] in (1599, 10000, 250)))
+            # with the orders file unreadable the rule may or may not see rows (the loader may skip the file or decode it leniently):
+            # only the ordinary sources' transactions and amounts are required then
+            probe = ('Ordered', sum(1 for e in expect if e['cents'] in (1599, 10000, 250))) if supp_state in ('ok', 'bom') else None
         elif r.random() < 0.4:
             f['transforms'] = [('field.description', 'regex_replace(field.description, "^UBER\\\\s+", "")')]
             f['rules'].insert(0, {'name': 'Probe', 'match': 'startswith("EATS")', 'category': 'Probe'})
@@ -148,7 +221,7 @@ def gen_budget(r):
         settings['views_file'] = 'config/views.rules'
     import yaml
     files['config/settings.yaml'] = yaml.safe_dump(settings, sort_keys=False)
-    return {'files': files, 'kind': kind, 'expect': {'count': len(expect), 'sum_cents': sum(e['cents'] for e in expect),
+    return {'files': files, 'kind': kind, 'states': states, 'ghost': ghost, 'expect': {'count': len(expect), 'sum_cents': sum(e['cents'] for e in expect),
                                                        'probe': probe if mode == 'first_match' else None}}
 
 
@@ -156,8 +229,21 @@ def write_budget(d, budget):
     for rel, text in budget['files'].items():
         p = os.path.join(d, rel)
         os.makedirs(os.path.dirname(p), exist_ok=True)
+        if isinstance(text, dict):
+            if text.get('dir'):
+                os.makedirs(p, exist_ok=True)
+                continue
+            if 'hex' in text:
+                with open(p, 'wb') as f:
+                    f.write(bytes.fromhex(text['hex']))
+                continue
+            mode, text = text.get('mode'), text.get('text', '')
+        else:
+            mode = None
         with open(p, 'w', encoding='utf-8', newline='') as f:
             f.write(text)
+        if mode is not None:
+            os.chmod(p, mode)
     os.makedirs(os.path.join(d, 'data'), exist_ok=True)
 
 
@@ -210,7 +296,10 @@ def model_input(budget):
             if not os.path.exists(fp):
                 continue
             spec = s['_format_spec']
-            rows = [list(x) for x in parsers._iter_rows_with_delimiter(fp, spec.delimiter, spec.has_header)]
+            try:
+                rows = [list(x) for x in parsers._iter_rows_with_delimiter(fp, spec.delimiter, spec.has_header)]
+            except (OSError, UnicodeError):
+                continue           # cmd_run: "Error parsing" → the source yields no transaction (Props.C11.unreadable_source_neutral)
 
             def pairs(dct):
                 return None if dct is None else [[k, v] for k, v in dct.items()]
@@ -364,18 +453,42 @@ def spec_oracle(budget, whole):
 
 
 def neutral_oracle(r, budget, whole):
-    """adding a source whose file is missing, or a supplemental source nobody queries, changes nothing"""
+    """adding a source whose file is missing, a source whose file is there but unreadable / hollow, or a supplemental source nobody
+    queries (readable or not) changes nothing: the run completes and every figure of the other sources stays"""
     import yaml
     if 'json' not in whole:
         return []
     st = yaml.safe_load(budget['files']['config/settings.yaml'])
-    st2 = dict(st, data_sources=list(st['data_sources']) + [{'name': 'Ghost', 'file': 'data/ghost.csv', 'format': '{date:%Y-%m-%d},{description},{amount}'}])
-    files = dict(budget['files'])
-    files['config/settings.yaml'] = yaml.safe_dump(st2, sort_keys=False)
-    other = run_up(dict(budget, files=files))
+    fails = []
+
+    def variant(src, entry, pos):
+        ds = list(st['data_sources'])
+        ds.insert(min(pos, len(ds)), src)
+        files = dict(budget['files'])
+        files['config/settings.yaml'] = yaml.safe_dump(dict(st, data_sources=ds), sort_keys=False)
+        if entry is not None:
+            files[src['file']] = entry
+        return dict(budget, files=files, expect=None, ghost=None)
+
+    fmt = '{date:%Y-%m-%d},{description},{amount}'
+    b2 = variant({'name': 'Ghost', 'file': 'data/ghost.csv', 'format': fmt}, None, len(st['data_sources']))
+    other = run_up(b2)
     if impl_view(other) != impl_view(whole):
-        return [{'class': 'missing-source-not-neutral', 'budget': budget, 'with_missing_source': impl_view(other), 'without': impl_view(whole)}]
-    return []
+        fails.append({'class': 'missing-source-not-neutral', 'budget': budget, 'with_missing_source': impl_view(other), 'without': impl_view(whole)})
+    g = budget.get('ghost')
+    if g:
+        src = {'name': 'Ledger', 'file': 'data/ledger.csv', 'format': fmt}
+        if g['supplemental']:
+            src['supplemental'] = True
+        b3 = variant(src, g['entry'], g['pos'])
+        other = run_up(b3)
+        if impl_view(other) != impl_view(whole):
+            what = ('supplemental-source-nobody-queries' if g['kind'] in ('valid', 'bom') else
+                    ('unreadable-' if g['kind'] in UNREADABLE else 'hollow-') + ('supplemental-' if g['supplemental'] else '') + 'source')
+            fails.append({'class': what + '-not-neutral', 'file_is': g['kind'], 'budget': budget,
+                          'settings_with_the_extra_source': b3['files']['config/settings.yaml'], 'extra_file': g['entry'],
+                          'with_the_extra_source': other if 'json' not in other else impl_view(other), 'without': impl_view(whole)})
+    return fails
 
 
 def run(ctx):
@@ -425,20 +538,40 @@ def run(ctx):
         for fl in ex.map(lambda i: locality_oracle(budgets[i], impls[i]) + neutral_oracle(r, budgets[i], impls[i]), sel):
             prop_fail.extend(fl)
             nor += 1
-    ctx.cov['evaluations'] = len(budgets) + nor * 3
+    ctx.cov['evaluations'] = len(budgets) + nor * 4
     ctx.cov['traces_validated_against_impl'] = len(mcases) - unmodelled
     ctx.cov['distinct_nontrivial'] = sum(1 for b, im in zip(budgets, impls) if 'json' in im and len(im['json']['merchants']) >= 2
-                                         and sum(1 for k in b['files'] if k.startswith('data/s')) >= 2)
+                                         and (sum(1 for x in b['states'] if x in ('ok', 'bom')) if 'states' in b else
+                                              sum(1 for k in b['files'] if k.startswith('data/s'))) >= 2)
     ctx.cov['rule'] = ('generated budget directories: 1–4 sources with independent format strings (column order, skip columns, custom capture + '
                        'description template), delimiter (comma / ; / tab), header flag, decimal convention, sign mode, malformed rows, missing files, an '
                        'optional supplemental source queried by a rule, .rules / legacy CSV / no rules, both rule modes, optional views; each run '
                        'through `python -m tally up --format json -v -q` in a fresh process and through the composed Lean model. '
-                       'Non-trivial = ≥ 2 data files and ≥ 2 merchants in the report')
+                       'Unreadable-file stream: an ordinary source file (12 %) or the queried supplemental file (30 %) is replaced by what a user '
+                       'ends up with — Latin-1 / Windows-1252 / UTF-16 bytes, binary junk (zip / pdf magic + NULs + invalid UTF-8), a directory, a '
+                       'mode-000 file (only when not root; a directory otherwise), a 0-byte or header-only file — or carries a UTF-8 BOM (15 % of '
+                       'the files with a header line); such a source must contribute nothing and the run must complete with every other source\'s '
+                       'transactions and amounts (generator truth + locality); for every second budget one more run adds a pre-drawn extra source '
+                       '(ordinary with an unreadable / hollow file, or supplemental and unqueried with any of those or a readable file) at a random '
+                       'position and requires an identical report. Non-trivial = ≥ 2 readable data files and ≥ 2 merchants in the report')
+    fs = {}
+    for b in budgets:
+        for x in b.get('states', []):
+            fs[x] = fs.get(x, 0) + 1
+    ctx.notes['source_file_states'] = dict(sorted(fs.items()))
+    gs = {}
+    for i in sel:
+        g = budgets[i].get('ghost')
+        if g and 'json' in impls[i]:
+            k = ('supplemental:' if g['supplemental'] else 'ordinary:') + g['kind']
+            gs[k] = gs.get(k, 0) + 1
+    ctx.notes['extra_source_neutrality_runs'] = dict(sorted(gs.items()))
+    ctx.notes['permission_denied_testable'] = os.geteuid() != 0
     ctx.notes['budgets_by_rules_kind'] = {k: sum(1 for b in budgets if b.get('kind') == k) for k in ('rules', 'csv', 'none')}
     ctx.notes['unmodelled_skipped'] = unmodelled
     ctx.notes['reports_produced'] = sum(1 for im in impls if 'json' in im)
     for b in budgets[:2]:
-        ctx.sample({'settings': b['files']['config/settings.yaml'], 'files': sorted(b['files'])})
+        ctx.sample({'settings': b['files']['config/settings.yaml'], 'files': sorted(b['files']), 'file_states': b.get('states')})
 
     def search():
         out = []
@@ -452,7 +585,8 @@ def run(ctx):
 
     common.conclude(ctx, prop_fail, search=search,
                     required='the report contains exactly the transactions of all non-supplemental sources, each read with its own settings and '
-                             'classified by the configured rules; changing one source or setting changes only its share; a missing source leaves the others intact')
+                             'classified by the configured rules; changing one source or setting changes only its share; a missing or unreadable source '
+                             '(ordinary or supplemental) leaves the others intact and does not stop the run')
     return ctx.finish(extra_trusted=[
         'PARTIAL: argparse, YAML loading, path resolution and JSON printing are exercised end to end but not modelled',
         'tokenisation (csv.reader / regex) is taken from the implementation, as in C05',
